@@ -205,7 +205,7 @@ def propFactors (c : Case) (I : Impl) (u : Rat) (exact : Bool) : Option String :
       let e := qabs (a - s)
       if exact then
         if e ≠ 0 then return some s!"(Pr A Pc - L U)({i},{j}) != 0 on a rounding-free case"
-      else if e > bnd * sa + tiny then return some s!"|(Pr A Pc - L U)({i},{j})| exceeds g(n+2)|L||U|"
+      else if e > bnd * sa + tiny then return some s!"|(Pr A Pc - L U)({i},{j})| exceeds g(n+2)|L||U| (ratio {(e / (bnd * sa + tiny)).floor})"
   return none
 
 /-- C02: the diagonal is the pivot whenever it passes the threshold test (no reuse), from the event
